@@ -73,34 +73,36 @@ def stored_knot(o, d, u):
 
 
 def removal_amplification(p, U, u, num):
-    """A-priori error amplification of Algorithm A5.8 (The NURBS Book) for removing u `num` times from U: every removal step solves
-    temp[ii] = (P[i] - (1 - a_i) temp[ii-1]) / a_i from the left and temp[jj] = (P[j] - a_j temp[jj+1]) / (1 - a_j) from the right, so a rounding
-    error of eps*|P| grows by 1/a_i (resp. 1/(1 - a_j)) per chain step; successive steps work on the output of the previous one. Returned:
-    product over the steps of the larger chain product (>= 1). This is conditioning of the operation on THIS knot vector, computed from
-    the knot vector alone."""
+    """A-priori conditioning of removing u `num` times from U (Eq. 5.28 of The NURBS Book): every single removal solves
+    P[i] = a_i Q[i] + (1 - a_i) Q[i-1], i = first..last, for the new points Q - from the left (divide by a_i) up to some index m and
+    from the right (divide by 1 - a_i) down to it; a rounding error of eps*|P| grows by at most 1/a_i resp. 1/(1 - a_i) per chain
+    step. The meeting point is free, so the conditioning of the PROBLEM is the best choice of m (an implementation that always meets
+    in the middle, as Algorithm A5.8 is printed, may do much worse: that is its defect, not conditioning). Returned: the product over
+    the `num` removals of min over m of the larger chain product (>= 1), computed from the knot vector alone."""
+    U = list(U)
     rng_ = abs(U[-1] - U[0]) or 1.0
-    idx = [i for i, k in enumerate(U) if abs(k - u) <= 1e-12 * max(1.0, rng_)]
-    if not idx:
-        return 1.0
-    r, s = idx[-1], len(idx)
-    first, last = r - p, r - s
     total = 1.0
-    for t in range(num):
-        i, j = first, last
-        left = right = 1.0
-        while j - i > t:
+    for _t in range(num):
+        idx = [i for i, k in enumerate(U) if abs(k - u) <= 1e-12 * max(1.0, rng_)]
+        if not idx:
+            return total
+        r, s = idx[-1], len(idx)
+        first, last = r - p, r - s
+        if last >= first:
             try:
-                ai = (u - U[i]) / (U[i + p + 1 + t] - U[i])
-                aj = (u - U[j - t]) / (U[j + p + 1] - U[j - t])
+                al = [(u - U[i]) / (U[i + p + 1] - U[i]) for i in range(first, last + 1)]
             except (ZeroDivisionError, IndexError):
                 return float('inf')
-            left *= 1.0 / max(abs(ai), 1e-300)
-            right *= 1.0 / max(abs(1.0 - aj), 1e-300)
-            i += 1
-            j -= 1
-        total *= max(1.0, left, right)
-        first -= 1
-        last += 1
+            best = float('inf')
+            for m in range(len(al)):
+                left = right = 1.0
+                for a in al[:m]:
+                    left *= 1.0 / max(abs(a), 1e-300)
+                for a in al[m + 1:]:
+                    right *= 1.0 / max(abs(1.0 - a), 1e-300)
+                best = min(best, max(left, right))
+            total *= max(1.0, best)
+        del U[r]
     return total
 
 
@@ -250,17 +252,13 @@ def check(case, ctx):
     cond = {'amp': 1.0, 'removed': {}}    # conditioning of the removals performed so far (see note_removal)
 
     def note_removal(d, u, r):
-        # A5.8 divides by alpha = (u - U[i]) / (U[i+p+1+t] - U[i]) (and by 1 - alpha_j) once per removed copy: rounding errors are
-        # amplified by at most (range / distance to the nearest other knot) per copy. That is conditioning of the operation, not a
-        # defect, so the acceptance band is widened by a sound bound of it (never below the 1e-9 policy).
+        # knot removal divides by alpha_i (from the left) or 1 - alpha_i (from the right) once per chain step: the acceptance band is
+        # widened by the conditioning of the PROBLEM (best meeting point of the two chains; never below the 1e-9 policy), not by what
+        # an unlucky choice of the meeting point would cost
         U = G.kvs_of(o)[d]
-        rng_ = (U[-1] - U[0]) or 1.0
-        others = [k for k in set(U) if abs(k - u) > 1e-12 * abs(rng_)]
-        hrel = min(abs(k - u) for k in others) / abs(rng_) if others else 1.0
         key = (d, round(u, 12))
         cond['removed'][key] = cond['removed'].get(key, 0) + r
-        cond['amp'] = max(cond['amp'], 1e-13 * (1.0 / max(hrel, 1e-9)) ** cond['removed'][key] / 1e-9)
-        # the chain products of A5.8 on this knot vector (matter for high degrees next to a domain end: several small alphas per step)
+        # the chain products of Eq. 5.28 on this knot vector for the best meeting point of the two recursions
         cond['chain'] = cond.get('chain', 1.0) * removal_amplification(G.degrees_of(o)[d], list(U), u, r)
         cond['amp'] = max(cond['amp'], 1e-14 * cond['chain'] / 1e-9)
         ctx.notes['max_conditioning_factor_applied'] = max(ctx.notes.get('max_conditioning_factor_applied', 1.0), cond['amp'])
@@ -320,7 +318,7 @@ def check(case, ctx):
         dirs = sorted(rng.sample(range(pdim), rng.randint(2, pdim)))
         prm, num = [None] * pdim, [0] * pdim
         for d in dirs:
-            pick = so.pick_insertion(rng, o, d, prefer_knot=0.3, mindist=0.03)
+            pick = so.pick_insertion(rng, o, d, prefer_knot=0.3, mindist=0.03 if rng.random() < 0.5 else 1e-3)
             if pick is None:
                 raise Reject()
             u, s, tag = pick
@@ -381,7 +379,7 @@ def check(case, ctx):
             big = case.get('bigcoords', False)
             if big:
                 ctx.tag('big-coordinates')
-            pick = so.pick_insertion(rng, o, d, prefer_knot=0.35 if not (uservalue or big) else 0.0, mindist=0.03 if rng.random() < 0.85 else 1e-3,
+            pick = so.pick_insertion(rng, o, d, prefer_knot=0.35 if not (uservalue or big) else 0.0, mindist=0.03 if rng.random() < 0.5 else 1e-3,
                                      small=0.6 if uservalue else (0.8 if big else 0.0))
             if pick is None:
                 continue
